@@ -50,7 +50,7 @@ def c13(run):
                 "signs, hasanta, chandrabindu, punctuation, ZWNJ, reph/ro-fola/zo-fola keys) x 8 settings of the other helpers with old "
                 "reph on; checks ImplReph against PropRephSet (conservation for every text, exact placement for texts matching the "
                 "syllable grammar) and replays every history ending in the reph key through the real engine.  Non-trivial = expected text non-empty.")
-    depth = 6 if run.quick() else 7
+    depth = 5 if run.quick() else 6
     tlc, s = run_tlc_replay(run, "MC_Reph", "MC_Fixed.tla",
                             dict(spec="Spec", constants={"Depth": depth, "Alphabet": '"reph"'},
                                  invariants=["ImplRefinesProp", "Emit"]),
